@@ -1412,12 +1412,14 @@ def nontrivial(case, obs):
 def describe(case, obs):
     v = "accepted" if obs["verdict"] == "accept" else "rejected" if obs["verdict"] == "InvalidDefinition" else "other:" + obs["verdict"]
     tags = case["tags"]
-    planted = [t for t in tags if not t.startswith("boundary:")]
+    planted = [t for t in tags if not t.startswith("boundary:") and t not in ("soup", "shuffle")]
     keys = ["verdict:" + v, "api:" + case["api"], "ending:" + case["ending"], "decor:" + case.get("decor", "plain"), "allow_unregulated:%s" % case["allow"],
             "kind:%s" % ("service" if len(case["sections"]) == 2 else "message" if len(case["sections"]) == 1 else "3+sections"),
             "deps:%d" % min(len(case["deps"]), 3)]
     if not tags:
         keys.append("planted=0:" + v)
+    elif tags == ["shuffle"]:
+        keys.append("shuffle-only:" + v)
     for t in tags:
         if t == "soup":
             keys.append("soup:" + v)
